@@ -25,9 +25,9 @@ INFO = {
         'quick': {'counters': {'history_calls': 1200, 'series_compared': 8000, 'state_preserved_checks': 1200, 'reversed_keys': 100,
                                'short_output_calls': 20, 'files': 37},
                   'seen': {'simulators': 6, 'table_subset': 12}, 'nontrivial': 800},
-        'thorough': {'counters': {'history_calls': 20000, 'series_compared': 200000, 'state_preserved_checks': 20000, 'reversed_keys': 2000,
-                                  'short_output_calls': 300, 'files': 37},
-                     'seen': {'simulators': 6, 'table_subset': 12}, 'nontrivial': 15000},
+        'thorough': {'counters': {'history_calls': 8000, 'series_compared': 150000, 'state_preserved_checks': 8000, 'reversed_keys': 2000,
+                                  'short_output_calls': 150, 'files': 37},
+                     'seen': {'simulators': 6, 'table_subset': 12}, 'nontrivial': 6000},
     },
     'watchdog_s': {'quick': 1500, 'thorough': 7200},
     'assumptions': ['termination is restated as bounded progress: a history call may perform at most 64 + 4 x (lines in the file) readline calls and '
@@ -314,7 +314,10 @@ def gen_selections(ctx, case, tier):
     ncols = 3 if tier == 'quick' else None
     for k in range(1, len(tabs) + 1):
         for sub in itertools.combinations(tabs, k):
-            orders = list(itertools.permutations(sub)) if k <= 3 else [tuple(rng.sample(sub, k)) for _ in range(6)] + [sub]
+            if tier == 'thorough':
+                orders = list(itertools.permutations(sub)) if k <= 4 else [tuple(rng.sample(sub, k)) for _ in range(24)] + [sub]
+            else:
+                orders = list(itertools.permutations(sub)) if k <= 3 else [tuple(rng.sample(sub, k)) for _ in range(6)] + [sub]
             if tier == 'quick' and k >= 3:
                 orders = [sub] + rng.sample(orders, min(len(orders), 2))
             for order in orders:
@@ -323,6 +326,8 @@ def gen_selections(ctx, case, tier):
                     rows = case.rows[t]
                     cols = case.cols[t]
                     picks = sorted(set([0, len(rows) // 2, len(rows) - 1, min(len(rows) - 1, 60)]))
+                    if tier == 'thorough':
+                        picks = sorted(set(picks + [rng.randrange(len(rows)) for _ in range(5)]))
                     use_cols = cols if ncols is None else rng.sample(cols, min(len(cols), ncols))
                     items = []
                     for pi, r in enumerate(picks):
@@ -371,7 +376,8 @@ def run_shard(ctx, spec):
         ctx.count('files')
         starts = sorted(set([0, case.N // 2, case.N - 1]))
         n = 0
-        for sel, form in gen_selections(ctx, case, ctx.tier):
+        reps = 5 if ctx.tier == 'thorough' else 1        # fresh random rows / columns / orders each time
+        for sel, form in itertools.chain.from_iterable(gen_selections(ctx, case, ctx.tier) for _ in range(reps)):
             shorts = [True, False] if case.short_types else [True]
             for short in shorts:
               for start in starts:
